@@ -8,8 +8,10 @@ import (
 	"os"
 	"os/exec"
 	"path/filepath"
+	"runtime"
 	"sort"
 	"strings"
+	"syscall"
 	"time"
 )
 
@@ -1081,6 +1083,7 @@ func runSeqChunked(args []string, o *Opts, only string) (int, bool) {
 	t0 := time.Now()
 	st := NewStats("seq", "")
 	var fails []OracleFailure
+	runtime.LockOSThread() // Pdeathsig is delivered when the spawning THREAD ends: keep it for the whole run
 	trace, err := os.Create(filepath.Join(o.Out, "trace.txt"))
 	if err != nil {
 		fmt.Fprintln(os.Stderr, err)
@@ -1117,6 +1120,7 @@ func runSeqChunked(args []string, o *Opts, only string) (int, bool) {
 		cargs = append([]string{"seq"}, append(cargs, "-out", dir, "-from", fmt.Sprint(a), "-to", fmt.Sprint(b), "-budget", fmt.Sprint(int(left/time.Second)))...)
 		cmd := exec.Command(os.Args[0], cargs...)
 		cmd.Stdout, cmd.Stderr = os.Stdout, os.Stderr
+		cmd.SysProcAttr = &syscall.SysProcAttr{Pdeathsig: syscall.SIGKILL} // a killed run leaves no child behind
 		cerr := cmd.Run()
 		// whatever the child wrote is kept, also when it died
 		if f, err := os.Open(filepath.Join(dir, "trace.txt")); err == nil {
